@@ -206,3 +206,65 @@ n('C04', 'restrict: terms reordered', CORE,
   "(rx[ixp, iym, izm] + rx[ix, iym, izm])*wzl[ciz] +")
 n('C04', 'restrict_weights: /2. as *0.5', CORE,
   "d[i] = (h[2*i-2]+h[2*i-1])/2.", "d[i] = 0.5*(h[2*i-1]+h[2*i-2])")
+
+# ------------------------------------------------------------------- C01
+m('C01', '_terminate: guard without reference norm', SOLVER,
+  "    if l2_last < var.tol*var.l2_refe:", "    if l2_last < var.tol:", 'C01.R1')
+m('C01', 'solve: already-converged test against l2_refe only', SOLVER,
+  "        if var.l2 < var.tol*var.l2_refe:", "        if var.l2 < var.l2_refe:",
+  'C01.R1')
+m('C01', 'multigrid: final residual computed before post-smoothing', SOLVER,
+  "            # Get current error (l2-norm).\n            l2_last = residual(model, sfield, efield, True)\n",
+  "            # Get current error (l2-norm).\n            l2_last = norm if var.verb > 4 else residual(model, sfield, efield, True)\n",
+  'C01.R')
+m('C01', 'multigrid: var.l2 = l2_prev', SOLVER,
+  "    var.l2 = l2_last\n", "    var.l2 = l2_prev\n", 'C01.R2')
+m('C01', 'multigrid: extra smoothing after the last residual', SOLVER,
+  "            # Check if any termination criteria is fulfilled.\n            if _terminate(",
+  "            smoothing(model, sfield, efield, 1, var.lr_dir)\n            if _terminate(",
+  'C01.R')
+m('C01', 'solve: one PEC plane not zeroed', SOLVER,
+  "        efield.fz[:, 0, :] = efield.fz[:, -1, :] = 0.",
+  "        efield.fz[:, 0, :] = 0.", 'C01.R4')
+m('C01', 'solve: PEC zeroing on the wrong axis of fy', SOLVER,
+  "        efield.fy[0, :, :] = efield.fy[-1, :, :] = 0.",
+  "        efield.fy[:, 0, :] = efield.fy[:, -1, :] = 0.", 'C01.R4')
+m('C01', 'solve: efield re-bound in the zero-source arm (defect F1 back)', SOLVER,
+  "        efield.field = 0.0\n        var.l2 = 0.0\n",
+  "        efield = fields.Field(model.grid, dtype=sfield.field.dtype,\n                              frequency=sfield._frequency)\n",
+  'C01.R')
+m('C01', 'krylov: residual not recomputed (defect F2 back)', SOLVER,
+  "    # Error of the returned field (the solver may exit between callbacks).\n    var.l2 = residual(model, sfield, efield, True)\n",
+  "", 'C01.R2')
+m('C01', 'solve: exit status inverted', SOLVER,
+  "    exit_status = int(var.exit_message != 'CONVERGED')",
+  "    exit_status = int(var.exit_message == 'CONVERGED')", 'C01.R2')
+m('C01', 'krylov: info > 0 arm reports CONVERGED', SOLVER,
+  '        var.exit_message = "MAX. ITERATION REACHED, NOT CONVERGED"\n    else:\n        var.exit_message = "CONVERGED"',
+  '        var.exit_message = "CONVERGED"\n    else:\n        var.exit_message = "CONVERGED"',
+  'C01.R')
+m('C01', 'krylov: success for info >= 0', SOLVER,
+  "    elif i > 0:\n        var.exit_message = \"MAX. ITERATION REACHED, NOT CONVERGED\"",
+  "    elif i > 1:\n        var.exit_message = \"MAX. ITERATION REACHED, NOT CONVERGED\"",
+  'C01.R1')
+m('C01', 'solve: dtype check removed', SOLVER,
+  "        if sfield.field.dtype != efield.field.dtype:",
+  "        if False and sfield.field.dtype != efield.field.dtype:", 'C01.R5')
+m('C01', 'info dict: abs_error from error_at_cycle', SOLVER,
+  "            'abs_error': var.l2,               # Absolute error.",
+  "            'abs_error': var.error_at_cycle[-1],  # Absolute error.",
+  'C01.R2')
+m('C01', 'krylov: atol large', SOLVER,
+  "maxiter=var.ssl_maxit, atol=1e-30, M=M, callback=callback)",
+  "maxiter=var.ssl_maxit, atol=1e-3, M=M, callback=callback)", 'C01.R1')
+m('C01', '_terminate: STAGNATED arm without message', SOLVER,
+  '        var.exit_message = "STAGNATED"\n', '        pass\n', 'C01.R6')
+m('C01', 'Field.field setter re-binds', FIELDS,
+  "        self._field[:] = field", "        self._field = field", 'C01.R3')
+n('C01', '_terminate: product operands swapped, <= ', SOLVER,
+  "    if l2_last < var.tol*var.l2_refe:", "    if l2_last <= var.l2_refe*var.tol:")
+n('C01', 'solve: exit status via conditional expression', SOLVER,
+  "    exit_status = int(var.exit_message != 'CONVERGED')",
+  "    exit_status = 0 if var.exit_message == 'CONVERGED' else 1")
+n('C01', 'multigrid: residual stored through a second local', SOLVER,
+  "    var.l2 = l2_last\n", "    final = l2_last\n    var.l2 = final\n")
